@@ -120,6 +120,19 @@ def check_brute(params):
     return out
 
 
+def check_brute_history(params):
+    """Several searches in one process, over different vocabularies and targets: each search only
+    uses its own words (nothing is carried over from the search before)."""
+    out = []
+    for vocab, target, n in params["searches"]:
+        p = dict(vocab=vocab, target=target, n=n)
+        res = check_brute(p)
+        if res:
+            out.append((_sig("brute-history", params), "after the searches before it in %s: %s" % (params["searches"], res[0][1])))
+            break
+    return out
+
+
 # ------------------------------------------------------------------ (B) CFG with a ChoiceExplorer
 
 GRAMMARS = {
@@ -521,7 +534,7 @@ def check_tree(params):
     return out
 
 
-CASES = {k: safe("C18", f) for k, f in {"parse": check_parse, "brute": check_brute, "cfg": check_cfg,
+CASES = {k: safe("C18", f) for k, f in {"parse": check_parse, "brute": check_brute, "cfg": check_cfg, "brute_history": check_brute_history,
                                         "rule": check_rule, "cat": check_cat, "tree": check_tree}.items()}
 
 
@@ -577,6 +590,10 @@ def run(ctx):
                              (["Alice", "runs", "not", "e"], ("s",), 12 if ctx.quick else 40),
                              (["Alice", "nl", "e"], ("n",), 6), (["Alice", "nl", "e"], (), 4)):
         items.append(("brute", dict(vocab=vocab, target=list(target), n=n)))
+    # vocabularies known (from the brute cases above) to have at least that many parses
+    S1, S2, S3 = [["Alice", "runs", "not", "e"], ["s"], 6], [["Alice", "loves", "not", "that"], ["s"], 6], [["Alice", "nl", "e"], ["n"], 5]
+    for seq in ([S1, S2], [S2, S1], [S3, S1, S2], [S1, S3, S1], [S2, S3, S2]):
+        items.append(("brute_history", dict(searches=seq)))
     limits = []
     for md in (1, 2, 3, 4) if ctx.quick else (1, 2, 3, 4, 5):
         for ms in (1, 2):
